@@ -1,0 +1,31 @@
+// Copyright © 2022-2026 Obol Labs Inc. Licensed under the terms of a Business Source License 1.1
+
+//go:build verif
+
+// Verification contracts (comments only; read by /verif/govc, never compiled into charon).
+package registration
+
+//@ pure executionAddressFromStr eth2v1.ValidatorRegistration.HashTreeRoot eth2p0.ForkData.HashTreeRoot eth2p0.SigningData.HashTreeRoot
+
+// The registration message carries exactly the given key, gas limit, timestamp and the parsed fee recipient.
+//@ func NewMessage
+//@ props C12
+//@ ensures r1 == nil ==> res(1, executionAddressFromStr(feeRecipient)) == nil && r0.FeeRecipient == res(0, executionAddressFromStr(feeRecipient))
+//@ ensures r1 == nil ==> r0.GasLimit == gasLimit && r0.Timestamp == timestamp && r0.Pubkey == pubkey
+//@ canary r1 != nil
+
+// The signing root is the root of SigningData{message root, registration domain of the given genesis fork version}.
+//@ func GetMessageSigningRoot
+//@ props C12
+//@ callreq getRegistrationDomain: a1 == genesisForkVersion
+//@ ensures r1 == nil ==> ncalls(getRegistrationDomain) == 1
+//@ canary r1 != nil
+
+//@ func getRegistrationDomain
+//@ props C12
+//@ callreq forkData.HashTreeRoot: forkData.CurrentVersion == genesisForkVersion && forkData.GenesisValidatorsRoot == eth2p0.Root{}
+//@ ensures r1 == nil ==> ncalls(forkData.HashTreeRoot) == 1
+//@ ensures r1 == nil ==> forall(i, 0, 4, r0[i] == registrationDomainType[i])
+//@ ghost forkRoot eth2p0.Root
+//@ ghostafter forkData.HashTreeRoot: forkRoot = root
+//@ ensures r1 == nil ==> forall(i, 0, 28, r0[4+i] == forkRoot[i])
